@@ -1,16 +1,23 @@
 #!/bin/sh
 # usage: tools/try_mutant.sh <patch.diff> <check ids...>
-# applies the patch to /repo, runs the checks (quick), prints their verdict lines, restores /repo.
+# Applies the patch to a scratch worktree of /repo's HEAD (/var/tmp/vw/mutrepo, VERIF_REPO points the checks at
+# it, so /repo itself stays quiet for concurrently running checks), runs the checks (quick) from a private copy of
+# /verif's tools (evidence/replays/gen of /verif itself are not touched), prints their verdict lines, restores.
 patch="$1"; shift
-cd /verif || exit 2
-if [ -n "$(git -C /repo status --porcelain)" ]; then echo "/repo not clean"; exit 2; fi
-git -C /repo apply "$patch" || { echo "patch does not apply"; exit 3; }
+M=/var/tmp/vw/mutrepo
+V=/var/tmp/vw/mutverif
+[ -d "$M" ] || git -C /repo worktree add --detach "$M" HEAD >/dev/null 2>&1 || exit 2
+git -C "$M" checkout -q --detach "$(git -C /repo rev-parse HEAD)" || exit 2
+git -C "$M" checkout -- . ; git -C "$M" clean -fdq
+mkdir -p "$V"
+rsync -a --delete --exclude .git --exclude work --exclude replays --exclude seeded /verif/ "$V"/ || exit 2
+git -C "$M" apply "$patch" || { echo "patch does not apply"; exit 3; }
+cd "$V" || exit 2
 for c in "$@"; do
-  out=$(./check "$c" --tier quick 2>&1); rc=$?
+  out=$(VERIF_REPO="$M" ./check "$c" --tier "${TIER:-quick}" 2>&1); rc=$?
   echo "== $c rc=$rc"
   echo "$out" | grep -E "^VIOLATION|MACHINERY|Traceback" | head -5
   echo "$out" | grep -E "^  what:" | head -3 | cut -c1-260
   echo "$out" | tail -1 | cut -c1-160
 done
-git -C /repo checkout -- .
-git -C /repo status --porcelain | head -3
+git -C "$M" checkout -- . ; git -C "$M" clean -fdq
